@@ -170,7 +170,8 @@ def helper_struct(ctx, rep, T, be, struct, fns, prefixed):
         for line, alt in items:
             alt_n = norm_seq(alt)
             for ix, comp in enumerate(alt_n):
-                if comp[0] == 'atom' and comp[1] == 'RustEnumVariantShared.id.original' and ix + 1 < len(alt_n) and alt_n[ix + 1][0] == 'lit' and tail_lit and alt_n[ix + 1][1].startswith(tail_lit):
+                # a reference = any variant-derived name component directly followed by the helper suffix literal
+                if comp[0] == 'atom' and comp[1].startswith('RustEnumVariantShared.id.') and ix + 1 < len(alt_n) and alt_n[ix + 1][0] == 'lit' and tail_lit and alt_n[ix + 1][1].startswith(tail_lit):
                     # candidate reference window ending at the tail literal
                     start = ix + 1 - (len(D) - 1)
                     win = alt_n[max(0, start):ix + 1] + [('lit', tail_lit)]
@@ -226,16 +227,67 @@ def n4(ctx, rep, T, be, struct, fns, prefixed):
                         rep.fail('N4', f"{be}:{g['name']}:{c['f']}:empty-generics", f"{be}: {g['qual']} passes `&[]` as generic context to {c['f']} although the item has generic_types — a generic parameter would be prefixed like a user type", {'file': g['file'], 'line': c.get('line')})
 
 
-def n3(ctx, rep):
-    """Reference rewriter coverage."""
-    f = ctx.fn('check_type', file='reconcile.rs')
-    fx = ctx.x(f)
-    site = {'file': f['file'], 'line': f['line']}
-    rt = ctx.item('enum', 'RustType')
-    sp = ctx.item('enum', 'SpecialRustType')
-    m_rt = [m for m in f['matches'] if any(v.startswith('RustType::') for a in m['arms'] for v in a['variants'])]
-    if not m_rt:
-        raise core.Incomplete('check_type: match over RustType not found')
+def id_assigned(fx, full):
+    """Some assignment in (the inlined view of) check_type targets the `id` payload of RustType::<full> — bound by a
+    match arm, or by an `if let A { id, .. } | B { id } = ty` whose alternatives include the variant."""
+    for asg in fx['assigns']:
+        t = vt.strip(asg.get('target'))
+        while isinstance(t, dict) and t.get('k') in ('deref', 'ref', 'paren'):
+            t = vt.strip(t.get('v'))
+        if not (isinstance(t, dict) and t.get('k') == 'payload' and t.get('field') == 'id'):
+            continue
+        if str(t.get('variant', '')).endswith(full):
+            return True
+        for fr in asg.get('guard', []):
+            c = fr.get('c') if fr.get('k') == 'if' and not fr.get('neg') else None
+            if isinstance(c, dict) and c.get('k') == 'iflet' and full in (c.get('variants') or []) and str(t.get('variant', '')) in (c.get('variants') or []):
+                return True
+    return False
+
+
+def delegated_children(f):
+    """Name of the children-iterator method when check_type recurses as `for p in ty.<H>() { check_type(.., p) }` (or the
+    adaptor form), unconditionally, on its own RustType parameter."""
+    for c in f['calls']:
+        if c.get('f') != 'check_type':
+            continue
+        for a in c.get('args', []):
+            v = vt.unvar(a)
+            if isinstance(v, dict) and v.get('k') == 'elem':
+                of = vt.unvar(v.get('of'))
+                while isinstance(of, dict) and of.get('k') == 'call' and of.get('f') in ('iter', 'iter_mut', 'into_iter', 'by_ref') and of.get('recv') is not None:
+                    of = vt.unvar(of['recv'])
+                if isinstance(of, dict) and of.get('k') == 'call' and isinstance(vt.unvar(of.get('recv')), dict) and vt.unvar(of['recv']).get('root_ty') == 'RustType' and not vt.unvar(of['recv']).get('path'):
+                    if not [fr for fr in c.get('guard', []) if fr.get('k') in ('if', 'arm')]:
+                        return of.get('f')
+    return None
+
+
+def n3_delegated(ctx, rep, f, fx, helper, rt, site):
+    """check_type rewrites the id of the node itself and recurses over `ty.<helper>()`: coverage of every payload is then a
+    property of that children iterator (RustType::<helper> and SpecialRustType::<helper>)."""
+    from .. import coverage
+    for var in rt['variants']:
+        if any(fl['name'] == 'id' for fl in var['fields']):
+            key = f"check_type:RustType::{var['name']}"
+            rep.check(id_assigned(fx, f"RustType::{var['name']}"), 'N3', key + ':id-rewritten', 'id position rewritten', f"reconcile::check_type never rewrites RustType::{var['name']}.id — a reference `{var['name']}` to a serde(rename)d generic type keeps the original name while its definition is renamed", site)
+    hs = [g for g in ctx.astq['functions'] if g['name'] == helper and g['file'].endswith('rust_types.rs') and (g.get('self_ty') or '').split('<')[0] == 'SpecialRustType']
+    hr = [g for g in ctx.astq['functions'] if g['name'] == helper and g['file'].endswith('rust_types.rs') and (g.get('self_ty') or '').split('<')[0] == 'RustType']
+    if len(hs) != 1 or len(hr) != 1:
+        raise core.Incomplete(f'check_type delegates to `{helper}` but RustType::{helper} / SpecialRustType::{helper} were not found in rust_types.rs')
+    coverage.check_recursion(rep, 'N3', ctx, hs[0], 'SpecialRustType', [], 'check_type', uses_ok=True)
+    # RustType::<helper>: Generic yields its parameters, Special delegates to the special type's iterator
+    ms = coverage.find_matches(hr[0], 'RustType')
+    if not ms:
+        raise core.Incomplete(f'RustType::{helper}: match over RustType not found')
+    hsite = {'file': hr[0]['file'], 'line': hr[0]['line']}
+    for var, need in (('Generic', 'parameters'), ('Special', helper)):
+        arms = [a for m in ms for a in m['arms'] if any(v.endswith('::' + var) or f'RustType::{var}' in v for v in a['variants'])]
+        ok = bool(arms) and re.search(rf'\b{need}\b', arms[0]['body']) is not None and not arms[0].get('empty')
+        rep.check(ok, 'N3', f'check_type:RustType::{var}:children', f'RustType::{helper} yields the children of {var}', f"RustType::{helper} (the children iterator reconcile::check_type recurses over) yields nothing for RustType::{var}: references inside it are never renamed", hsite)
+
+
+def n3_match(ctx, rep, f, fx, m_rt, rt, sp, site):
     m = m_rt[0]
     for var in rt['variants']:
         id_field = any(fl['name'] == 'id' for fl in var['fields'])
@@ -246,14 +298,7 @@ def n3(ctx, rep):
             continue
         if id_field:
             # an assignment (here or in an expanded local helper) whose target is the `id` payload of this variant
-            full = f"RustType::{var['name']}"
-            assigned = False
-            for asg in fx['assigns']:
-                t = vt.strip(asg.get('target'))
-                while isinstance(t, dict) and t.get('k') in ('deref', 'ref', 'paren'):
-                    t = vt.strip(t.get('v'))
-                if isinstance(t, dict) and t.get('k') == 'payload' and str(t.get('variant', '')).endswith(full) and t.get('field') == 'id':
-                    assigned = True
+            assigned = id_assigned(fx, f"RustType::{var['name']}")
             bound = assigned
             rep.check(bound and assigned, 'N3', key + ':id-rewritten', 'id position rewritten', f"reconcile::check_type never rewrites RustType::{var['name']}.id — a reference `{var['name']}` to a serde(rename)d generic type keeps the original name while its definition is renamed", site)
     # special payloads
@@ -273,6 +318,23 @@ def n3(ctx, rep):
         a = arms[0]
         rec = [c for c in a['calls'] if c.get('f') == 'check_type']
         rep.check(len(rec) >= len(payload), 'N3', key, f'{len(rec)} recursive call(s) for {len(payload)} payload type(s)', f"reconcile::check_type recurses {len(rec)} time(s) into SpecialRustType::{var['name']} which carries {len(payload)} type payload(s)", site)
+
+
+def n3(ctx, rep):
+    """Reference rewriter coverage."""
+    f = ctx.fn('check_type', file='reconcile.rs')
+    fx = ctx.x(f)
+    site = {'file': f['file'], 'line': f['line']}
+    rt = ctx.item('enum', 'RustType')
+    sp = ctx.item('enum', 'SpecialRustType')
+    m_rt = [m for m in f['matches'] if any(v.startswith('RustType::') for a in m['arms'] for v in a['variants'])]
+    deleg = delegated_children(f)
+    if not m_rt and not deleg:
+        raise core.Incomplete('check_type: neither a match over RustType nor a loop over a children iterator of the type found')
+    if not m_rt:
+        n3_delegated(ctx, rep, f, fx, deleg, rt, site)
+    else:
+        n3_match(ctx, rep, f, fx, m_rt, rt, sp, site)
     # every type-bearing field of every item kind is passed to check_type
     ra = ctx.fnx('reconcile_aliases', file='reconcile.rs')
     cv = ctx.fn('check_variant', file='reconcile.rs')
